@@ -4,6 +4,8 @@ package main
 
 import (
 	"fmt"
+	"go/token"
+	"go/types"
 	"strings"
 
 	"golang.org/x/tools/go/ssa"
@@ -285,6 +287,33 @@ func runC17(w *World, r *Report) {
 		}
 	}
 
+	// a list written inside a loop over addresses is built from what was read for THAT address in this iteration
+	r.rule("list-update-is-iteration-local", "a per-address list written inside a loop does not depend on a value carried over from an earlier iteration of that loop (another address's list)", 1)
+	nLoopSets := 0
+	for _, fn := range fns {
+		instrsOf(fn, func(in ssa.Instruction) {
+			c, ok := in.(ssa.CallInstruction)
+			if !ok || memCall(c) != "Set" {
+				return
+			}
+			sb := in.Block()
+			if !onCycleWith(sb, sb) {
+				return
+			}
+			nLoopSets++
+			_, a := callArgs(c)
+			if len(a) < 2 {
+				return
+			}
+			carried := loopCarried(a[1], sb, map[ssa.Value]bool{}, 0)
+			r.check(carried == "", "list-update-is-iteration-local", shortFn(fn)+"/mem.Set("+pathOf(a[0])+")", lineOf(w, c),
+				"the list stored for an address derives from this iteration's read of that address (or is fresh)", carried)
+		})
+	}
+	if nLoopSets == 0 {
+		r.ok("list-update-is-iteration-local", "none", "-", "no list is written inside a loop")
+	}
+
 	// the awaiting index owns its key space: nothing else in the cache writes under an index key
 	r.rule("index-keys-private", "every write to the cache under a key built by encodeAddressKey / encodeTrxKey sits in the awaiting-index functions, and those functions write under no other keys (the balance entries share the cache: a shared key would let one clobber the other)", 6)
 	indexFns := map[string]bool{"SaveAwaitedTransaction": true, "RemoveAwaitedTransaction": true, "ReadTransactions": true}
@@ -363,4 +392,66 @@ func ownerFn(fn *ssa.Function) *ssa.Function {
 		fn = fn.Parent()
 	}
 	return fn
+}
+
+// loopCarried: does value v (followed through helper calls, append, slicing, conversions and φ) depend on a φ at the
+// header of a loop that contains block at — i.e. on what an earlier iteration computed — or on a variable that lives
+// outside that loop and is assigned inside it?
+func loopCarried(v ssa.Value, at *ssa.BasicBlock, seen map[ssa.Value]bool, d int) string {
+	if v == nil || seen[v] || d > 12 {
+		return ""
+	}
+	seen[v] = true
+	switch x := v.(type) {
+	case *ssa.Phi:
+		hb := x.Block()
+		header := false
+		for _, p := range hb.Preds {
+			if hb.Dominates(p) {
+				header = true
+			}
+		}
+		if header && onCycleWith(hb, at) {
+			for i, e := range x.Edges {
+				if hb.Dominates(hb.Preds[i]) && e != ssa.Value(x) {
+					if _, isConst := e.(*ssa.Const); !isConst {
+						return "value " + x.Name() + " (" + x.Comment + ") is carried from one iteration of the loop to the next"
+					}
+				}
+			}
+		}
+		for _, e := range x.Edges {
+			if s := loopCarried(e, at, seen, d+1); s != "" {
+				return s
+			}
+		}
+	case *ssa.Call:
+		for _, a := range x.Call.Args {
+			switch a.Type().Underlying().(type) {
+			case *types.Slice, *types.Map, *types.Pointer:
+				if s := loopCarried(a, at, seen, d+1); s != "" {
+					return s
+				}
+			}
+		}
+	case *ssa.Slice:
+		return loopCarried(x.X, at, seen, d+1)
+	case *ssa.ChangeType:
+		return loopCarried(x.X, at, seen, d+1)
+	case *ssa.Convert:
+		return loopCarried(x.X, at, seen, d+1)
+	case *ssa.Extract:
+		return loopCarried(x.Tuple, at, seen, d+1)
+	case *ssa.UnOp:
+		if al, ok := x.X.(*ssa.Alloc); ok && x.Op == token.MUL && isSourceVar(al) {
+			if !onCycleWith(al.Block(), at) { // declared outside the loop
+				for _, ref := range *al.Referrers() {
+					if st, ok := ref.(*ssa.Store); ok && st.Addr == ssa.Value(al) && onCycleWith(st.Block(), at) {
+						return "variable " + al.Comment + " is declared outside the loop and assigned inside it"
+					}
+				}
+			}
+		}
+	}
+	return ""
 }
